@@ -880,7 +880,7 @@ func init() {
 		Level:       "exploration",
 		Rule:        "case = one free-running run (race detector build) of 1 writer (transactions with overwrites, allocs incl. growth past the mapped size, frees, Flush, CheckpointWAL, rollbacks, close-without-commit, injected failing commits) against 1-4 readers with PRNG hold times and PRNG yields injected at the commit hook points; every page carries stamp(page, commit seq), the root page the commit seq; oracle = each reader scans root+all pages of the state the root names twice (after Begin, before Close): the version vector must equal the published state both times, never a state of a rolled-back/failed transaction, never poisoned (unmapped) memory; the begin/commit history (logical clock) is checked for linearizability with porcupine (register model); the simulated mmap turns reader/writer overlap on page bytes into race reports; distinct = (reader event x writer commit point) sets; non-trivial = >=3 commits and >=3 reader transactions",
 		Assumptions: append([]string{"interleavings are sampled by the Go scheduler plus injected yields, not enumerated; evidence lists the (reader event @ writer commit point) pairs actually observed"}, simdiskAssumptions...),
-		NumCases:    func(t string) int { return tierN(t, 96, 4000) },
+		NumCases:    func(t string) int { return tierN(t, 96, 1600) },
 		Race:        func(t string, i int) bool { return true },
 		CaseTimeout: func(t string) time.Duration {
 			if t == "thorough" {
@@ -914,7 +914,7 @@ func init() {
 		Level:       "exploration",
 		Rule:        "case = one free-running run (race detector build, thread-safe Observer installed) of N in 1..6 readers x M in 1..3 writers (commit / rollback / close / injected failing commits) and, in half of the cases, a closer calling File.Close while transactions are open; a third of the cases start with an Open that updates the max size (open-time maintenance transactions); monitors = exact writer count from begin/unlock hook events (<=1), lock state idle after open and after the run (hook), state-based deadlock detector (no progress + all workers parked on go-txfile locks, goroutine dump as witness), race detector reports (process-fatal, deduplicated by top frames), reader content oracle as in C02; every 4th case instead runs the cooperative scheduler: actor sets {1-2 readers, 1-2 writers (commit/rollback), closer} stepped one at a time at API boundaries and lock-adjacent hook points, would-block predicates evaluated on the hooked lock state, all schedules with <=2 (quick) / <=3 (thorough) preemptions enumerated depth-first up to a budget, deadlock = no enabled actor (state fact), lock leak at the end, reader view vs completed commits; distinct = (N,M,commits,reader tx,interleaving points); non-trivial = >=3 commits and >=3 reader transactions",
 		Assumptions: append([]string{"a Begin is never started after File.Close was called (documented precondition); transactions open at that time overlap with Close", "a run that does not finish without the deadlock detector's state facts is reported as inconclusive (watchdog), never as violation"}, simdiskAssumptions...),
-		NumCases:    func(t string) int { return tierN(t, 96, 4000) },
+		NumCases:    func(t string) int { return tierN(t, 96, 1600) },
 		Race:        func(t string, i int) bool { return i%4 != 3 }, // scheduler cases are deterministic: plain build
 		CaseTimeout: func(t string) time.Duration {
 			if t == "thorough" {
